@@ -20,10 +20,12 @@ RULE = ('cases: programs of 10..60 steps (thorough: up to 150) over both endpoin
         'ledger of the successful calls (minus entries the receiver made moot by its own reset), no receive_data '
         'raises, raising calls emit nothing, twin replay without the raising calls gives identical outcomes for every '
         'other step. evaluations = executed steps; non-trivial = a raising call followed by successful traffic AND a '
-        'delivery that splits a frame AND two streams alive at once; distinct by trace')
+        'delivery that splits a frame AND two streams alive at once; distinct by trace. About one message in five '
+        'declares a content-length that the program then honours exactly (padding not counted); each endpoint runs '
+        'with validate_inbound_headers / normalize_inbound_headers on or off')
 ASSUMPTIONS = [
-    'messages are HTTP-semantically consistent (no HEAD, 204, 304, content-length): C16 obliges the receiver to '
-    'reject the others',
+    'messages are HTTP-semantically consistent (no HEAD, 204, 304; a declared content-length is matched exactly '
+    'by the payload the program then sends): C16 obliges the receiver to reject the others',
     'calls a state machine refuses on a live object are not generated (known finding K03, decided by C06); at most '
     'one update_settings per endpoint is outstanding (known finding K02, decided by C11); both counted under '
     'excluded_by_construction',
@@ -37,13 +39,25 @@ TIERS = {'quick': {'cases': 6000, 'size': 700},
 def run_case(data):
     ch = Chooser(data)
     r = Result()
-    p = P.Pair(r, ID)
+    # receiver-side switches (a quarter of the cases each): they change nothing for conformant traffic, except
+    # that without normalize_inbound_headers the cookie fields arrive as they were sent
+    bits = ch.u8()
+    cfgs = {}
+    norm_in = {}
+    for side, shift in (('c', 0), ('s', 4)):
+        b = (bits >> shift) & 15
+        cfgs[side] = {'validate_inbound_headers': b & 3 != 3, 'normalize_inbound_headers': b & 12 != 12}
+        norm_in[side] = cfgs[side]['normalize_inbound_headers']
+    if bits & 0x33 == 0x33 or bits & 0xcc:
+        r.labels.add('non-default-inbound-config')
+    p = P.Pair(r, ID, cfg_c=cfgs['c'], cfg_s=cfgs['s'])
+    p.norm_in = norm_in
     p.handshake(ch)
     if not p.stop:
         nsteps = ch.int(10, 60) if len(data) <= 800 else ch.int(10, 150)
         P.gen_program(ch, p, nsteps)
     if not r.violations:
-        bad = P.twin_check(p, P.RawPair)
+        bad = P.twin_check(p, lambda: P.RawPair(cfg_c=cfgs['c'], cfg_s=cfgs['s']))
         if bad:
             r.violate('%s:%s' % (ID, bad[0]), bad[1])
     r.nontrivial = {'delivery-splits-a-frame', 'raising-call-then-successful-traffic',
